@@ -12,6 +12,17 @@ import threading
 from .boot import LIB_ROOT, HarnessError
 
 
+def _hang(msg):
+    """The simulation itself is stuck (a caller never got the baton back): dump every thread's stack into the worker log
+    and end the worker at once — the orchestrator reports it as a harness error with the log tail. Continuing would
+    let library `except Exception` clauses swallow the error and run without baton discipline."""
+    import faulthandler
+    sys.stderr.write('SIMULATION HANG: %s\n' % msg)
+    faulthandler.dump_traceback(file=sys.stderr, all_threads=True)
+    sys.stderr.flush()
+    os._exit(4)
+
+
 class Abort(BaseException):
     """Injected caller abort (request timeout / killed worker thread)."""
 
@@ -68,6 +79,8 @@ class Client:
         self.thread = None
         self.in_op = False
         self.lib_depth = 0
+        self.blocked_on = None          # a library lock (SimLock) this client is waiting for
+        self.thread_ident = None        # OS thread currently executing this client's ops
         self.op_faulted = False         # a fault already fired in the current op
         self.op_dirty_seen = False      # the first dirty detection of the current op already happened
 
@@ -96,6 +109,8 @@ class Baton:
         self._code_cache = {}
         self.error = None
         self.barrier_hits = 0
+        self.lock_switches = 0
+        self.deadlock = False
         self.dirty_probe = None         # callable: are shared containers away from their quiescent sizes?
         self.dirty_hits = 0
         self.capped = False
@@ -194,10 +209,11 @@ class Baton:
         site = self._site(frame) if frame is not None else '-'
         self.sites.add(site)
         self.switches.append([me.cid, me.op_idx, me.step_in_op, target.cid, site, why])
+        if why == 'lock':
+            self.policy.note_forced(self, me, why)
         self._handover(target)
         if not me.go.wait(self.hang_s):
-            self.error = 'client %d never got the baton back (hang)' % me.cid
-            raise HarnessError(self.error)
+            _hang('client %d never got the baton back after switching to client %d at %s (%s)' % (me.cid, target.cid, site, why))
         me.go.clear()
         self.policy.on_resume(self, me)
 
@@ -207,13 +223,36 @@ class Baton:
 
     # ------------------------------------------------------------------ client life cycle
     def runnable(self, exclude=None):
-        return [c for c in self.clients if not c.done and c is not exclude]
+        out = []
+        for c in self.clients:
+            if c.done or c is exclude:
+                continue
+            if c.blocked_on is not None and c.blocked_on.locked():
+                continue            # waiting for a library lock somebody still holds
+            out.append(c)
+        return out
+
+    def block_on_lock(self, client, lock, frame):
+        """A simulated caller would block on a library lock: hand the baton to the owner (or to anybody who can run);
+        if nobody can, the library has deadlocked under this schedule."""
+        client.blocked_on = lock
+        owner = self.clients_by_id.get(lock.owner_client_id())
+        cands = self.runnable(exclude=client)
+        target = owner if (owner is not None and owner in cands) else (cands[0] if cands else None)
+        if target is None:
+            # every simulated caller waits for a library lock: the library deadlocks under this schedule. Unwind this
+            # caller (its `with lock:` blocks release on the way out) so that the run can finish, and flag the run.
+            client.blocked_on = None
+            self.deadlock = self._site(frame)
+            raise Abort('deadlock on a library lock')
+        self.lock_switches += 1
+        self._switch(client, target, frame, 'lock')
+        client.blocked_on = None
 
     def _client_main(self, client, exec_op):
         """Body of a client (runs on its own thread, or on the main thread for placement 'main')."""
         if not client.go.wait(self.hang_s):
-            self.error = 'client %d never started (hang)' % client.cid
-            return
+            _hang('client %d never started' % client.cid)
         client.go.clear()
         self.policy.on_resume(self, client)
         tr = self.tracer_for(client)
@@ -243,6 +282,7 @@ class Baton:
                 self._handover(nxt)
 
     def _run_op(self, client, op, exec_op, tr):
+        client.thread_ident = threading.get_ident()
         sys.settrace(None if self.capped else tr)
         client.in_op = True
         try:
@@ -266,7 +306,7 @@ class Baton:
         th = threading.Thread(target=body, name='fresh-c%d-op%d' % (client.cid, client.op_idx), daemon=True)
         th.start()
         if not done.wait(self.hang_s):
-            raise HarnessError('fresh thread of client %d hung' % client.cid)
+            _hang('fresh thread of client %d hung' % client.cid)
         th.join(5)
         if 'err' in box:
             raise HarnessError('fresh thread of client %d died: %r' % (client.cid, box['err']))
@@ -289,7 +329,7 @@ class Baton:
         if main_client is not None:
             self._client_main(main_client, exec_op)
         if not self.all_done.wait(self.hang_s):
-            raise HarnessError(self.error or 'scheduler hang: not all clients finished')
+            _hang(self.error or 'not all clients finished')
         if self.error:
             raise HarnessError(self.error)
 
@@ -313,6 +353,9 @@ class BasePolicy:
 
     def at_point(self, sched, client, why):
         return None
+
+    def note_forced(self, sched, client, why):
+        pass
 
     dirty = None        # {'stall': p_first, 'abort': p_first} or None (fault-free run)
 
@@ -520,6 +563,11 @@ class ReplayPolicy(BasePolicy):
 
     def dirty_fault(self, sched, client, first, why='barrier'):
         return self.dirty_faults.get((client.cid, client.op_idx, client.step_in_op, why))
+
+    def note_forced(self, sched, client, why):
+        q = self.by_client.get(client.cid, [])
+        if q and q[0][5] == why and q[0][1] == client.op_idx and q[0][2] == client.step_in_op:
+            q.pop(0)
 
     def pick_other(self, sched, client):
         return self.at_point(sched, client, 'stall') or BasePolicy.pick_other(self, sched, client)
